@@ -41,7 +41,7 @@ def jobs(tier):
 MANIFEST = {
     "text": "Bounded model checking of the real become/unbecome/handler-selection code with the real stack: every "
             "script of L operations (symbolic) including re-entrant changes from inside the invoked handler and "
-            "stop/start, pause/resume, against an explicit stack model",
+            "stop/start, pause/resume, against an explicit stack model; one become/unbecome from any state and any token count: a refused call leaves the stack untouched",
     "note": "m_ctx() and clock stubbed; stop is represented by the real reset_module() (C01 shows stop() calls it); "
             "scripts longer than L are outside the claim",
 }
